@@ -196,6 +196,18 @@ CHECKS = {
             "trusted base; WWM directions are assumed to span one circle.",
             "units / angle-convention type inference (abstract interpretation over ast) seeded from a native-convention table + dispatcher cross-check",
             "DESIGN.md section 4 C12"),
+    "C15": (True, "other",
+            "Structural clauses of spectrum construction: on every path with a requested Hs the last value-changing operation "
+            "is scaled(spectrum, hs) = (hs/Hs)^2 * spectrum (so the measured Hs is exact by homogeneity); sign analysis shows each "
+            "shape is a product of non-negative factors; shapes built on other shapes forward every shared parameter; the "
+            "spreading function uses the folded angular distance (also for windows), is normalised by the sum of the same masked "
+            "array over dir with circle measure 2 pi / N, types as degree^-1, and the 2-D spectrum is exactly shape x spreading; "
+            "the construction and fitting implementations agree term by term (monomial normal form), PM equals JONSWAP's first "
+            "two factors; circular bin widths (shared).",
+            "the numeric identities (JONSWAP(gamma=1) = PM values, deep-water TMA = JONSWAP, measured dm/dspr equal the requested "
+            "ones) are not decided.",
+            "custom ast rules: CFG order, sign analysis, argument-forwarding cross-check, monomial normal-form sibling comparison, units typing",
+            "DESIGN.md section 4 C15"),
 }
 
 NA_DEFAULT = "check under construction in this build round (see DESIGN.md section 8)"
